@@ -149,6 +149,10 @@ def _translate_stmt(st, aliases, where):
         if (isinstance(base, ast.Name) and base.id in ("logger", "logging")) or _is_self_attr(base, "logger") \
                 or _is_self_attr(base, "_logger"):
             return []
+    # idempotence guard:  if self._shutdown: return      (no effect on the first unload, which is what is modelled)
+    if isinstance(st, ast.If) and not st.orelse and _src(st.test) in ("self._shutdown", "self._shutdown is True") \
+            and len(st.body) == 1 and isinstance(st.body[0], ast.Return) and st.body[0].value is None:
+        return []
     # try: … finally: …  (no handlers): the statements of both blocks in order
     if isinstance(st, ast.Try) and not st.handlers and not st.orelse:
         ops = []
@@ -287,6 +291,13 @@ def _translate_stmt(st, aliases, where):
             for b in st.body:
                 ops += _translate_stmt(b, aliases, where)
             return ops
+    # if self.exit_sockets: <sweep>      (a guard on the table that is swept: same effect as the bare loop)
+    if isinstance(st, ast.If) and not st.orelse and _src(st.test) in ("self.exit_sockets", "self.pex", "self.circuits",
+                                                                     "self.relay_from_to", "len(self.exit_sockets) > 0"):
+        ops = []
+        for b in st.body:
+            ops += _translate_stmt(b, aliases, where)
+        return ops
     # if removals: await gather(*removals)
     if isinstance(st, ast.If) and not st.orelse and isinstance(st.test, ast.Name) and aliases.get(st.test.id) == "removals":
         ops = []
@@ -439,6 +450,112 @@ def default_delay(scan):
     raise TranslatorError("TunnelSettings.remove_tunnel_delay: not a non-negative integer literal")
 
 
+# ---- TaskManager / RequestCache: the structure the scheduler model relies on --------------------------------------
+def _first_line(node, pred):
+    """line number of the first sub-node (in source order) satisfying pred, or None"""
+    hits = [n.lineno for n in ast.walk(node) if hasattr(n, "lineno") and pred(n)]
+    return min(hits) if hits else None
+
+
+def _tests_shutdown(n):
+    return isinstance(n, ast.If) and "self._shutdown" in _src(n.test) and "not" not in _src(n.test).split("self._shutdown")[0][-5:]
+
+
+def task_manager_facts(scan):
+    """Structural facts of taskmanager.py / requestcache.py that the hand-written scheduler model (TM.register, isActive,
+    cancel, replace, shutdownOp, pass) mirrors.  Recognised semantically (which guard, in which order), not textually."""
+    if "TaskManager" not in scan or "RequestCache" not in scan:
+        raise TranslatorError("TaskManager / RequestCache not found")
+    tm, rc = scan["TaskManager"][2], scan["RequestCache"][2]
+    facts = {}
+    reg = _method(tm, "register_task")
+    if reg is None:
+        raise TranslatorError("TaskManager.register_task not found")
+    store = _first_line(reg, lambda n: isinstance(n, ast.Assign) and any(
+        isinstance(t, ast.Subscript) and _is_self_attr(t.value, "_pending_tasks") for t in n.targets))
+    if store is None:
+        raise TranslatorError("register_task: no `self._pending_tasks[name] = …`")
+    g_down = _first_line(reg, lambda n: _tests_shutdown(n) and any(isinstance(x, ast.Return) for x in ast.walk(n)))
+    g_act = _first_line(reg, lambda n: isinstance(n, ast.If) and "is_pending_task_active" in _src(n.test)
+                        and any(isinstance(x, ast.Raise) for x in n.body))
+    facts["registerRefusesWhenShutdown"] = g_down is not None and g_down < store
+    facts["registerRaisesWhenActive"] = g_act is not None and g_act < store
+    facts["registerChecksShutdownFirst"] = g_down is not None and g_act is not None and g_down < g_act
+    done_cb = next((n for n in ast.walk(reg) if isinstance(n, ast.FunctionDef) and n.name == "done_cb"), None)
+    facts["doneCallbackUntracksOnlyItself"] = done_cb is not None and any(
+        isinstance(n, ast.If) and isinstance(n.test, ast.Compare) and isinstance(n.test.ops[0], ast.Is)
+        and "_pending_tasks" in _src(n.test) and any("_pending_tasks.pop" in _src(b) for b in n.body)
+        for n in ast.walk(done_cb))
+    facts["periodicRunnerGetsStopCheck"] = any(
+        isinstance(n, ast.Call) and isinstance(n.func, ast.Name) and n.func.id == "interval_runner"
+        and any(k.arg == "stop" and "_shutdown" in _src(k.value) for k in n.keywords) for n in ast.walk(reg))
+    act = _method(tm, "is_pending_task_active")
+    rets = [n for n in ast.walk(act)] if act is not None else []
+    rets = [n for n in rets if isinstance(n, ast.Return) and n.value is not None]
+    facts["activeMeansTrackedAndNotDone"] = bool(rets) and any(
+        "not " in _src(n.value) and ".done()" in _src(n.value) for n in rets) and not any(
+        isinstance(n.value, ast.Constant) and n.value.value is True for n in rets) and "_pending_tasks" in _src(act)
+    canc = _method(tm, "cancel_pending_task")
+    facts["cancelUntracksAtOnce"] = canc is not None and any(
+        isinstance(n, ast.If) and "not pending_task.done()" in _src(n.test)
+        and any(".cancel()" in _src(b) for b in n.body) and any("_pending_tasks.pop" in _src(b) for b in n.body)
+        for n in ast.walk(canc))
+    call = _method(tm, "cancel_all_pending_tasks")
+    facts["cancelAllCoversEveryTrackedName"] = call is not None and any(
+        isinstance(n, ast.ListComp) and "cancel_pending_task" in _src(n.elt) and len(n.generators) == 1
+        and not n.generators[0].ifs and "_pending_tasks" in _src(n.generators[0].iter) for n in ast.walk(call))
+    rep = _method(tm, "replace_task")
+    if rep is None:
+        raise TranslatorError("TaskManager.replace_task not found")
+    inner = [n for n in rep.body if isinstance(n, ast.FunctionDef)]
+    outer_calls = [n for st in rep.body if not isinstance(st, ast.FunctionDef) for n in ast.walk(st)
+                   if isinstance(n, ast.Call) and _is_self_attr(n.func, "register_task")]
+    facts["replaceRegistersOnlyFromDoneCallback"] = (
+        not outer_calls and len(inner) == 1 and "self.register_task(" in _src(inner[0])
+        and any(isinstance(n, ast.Call) and isinstance(n.func, ast.Attribute) and n.func.attr == "add_done_callback"
+                and n.args and isinstance(n.args[0], ast.Name) and n.args[0].id == inner[0].name for n in ast.walk(rep))
+        and "cancel_pending_task" in _src(rep))
+
+    def shutdown_facts(fn, prefix):
+        if fn is None:
+            raise TranslatorError(f"{prefix}: shutdown method not found")
+        flag = _first_line(fn, lambda n: isinstance(n, ast.Assign) and _src(n).replace(" ", "") == "self._shutdown=True")
+        cancel = _first_line(fn, lambda n: isinstance(n, ast.Call) and _is_self_attr(n.func, "cancel_all_pending_tasks"))
+        waits = [n for n in ast.walk(fn) if isinstance(n, ast.Await) and isinstance(n.value, ast.Call)
+                 and isinstance(n.value.func, ast.Name) and n.value.func.id == "gather"]
+        facts[prefix + "SetsFlagBeforeCancelling"] = flag is not None and cancel is not None and flag <= cancel
+        facts[prefix + "WaitsForAllCancelledTasks"] = bool(waits) and all(
+            any(k.arg == "return_exceptions" and isinstance(k.value, ast.Constant) and k.value.value is True
+                for k in w.value.keywords) for w in waits) and (cancel is not None and waits[0].lineno > cancel)
+        filt = _first_line(fn, lambda n: isinstance(n, ast.ListComp) and " is not " in _src(n) and n.generators
+                           and n.generators[0].ifs)
+        facts[prefix + "DoesNotWaitForItsCaller"] = "current_task()" in _src(fn) and filt is not None \
+            and all(filt < w.lineno for w in waits)
+
+    shutdown_facts(_method(tm, "shutdown_task_manager"), "shutdown")
+    shutdown_facts(_method(rc, "shutdown"), "cacheShutdown")
+    add = _method(rc, "add")
+    if add is None:
+        raise TranslatorError("RequestCache.add not found")
+    store = _first_line(add, lambda n: isinstance(n, ast.Assign) and any(
+        isinstance(t, ast.Subscript) and _is_self_attr(t.value, "_identifiers") for t in n.targets))
+    g = _first_line(add, lambda n: _tests_shutdown(n) and any(
+        isinstance(x, ast.Return) and isinstance(x.value, ast.Constant) and x.value.value is None for x in ast.walk(n)))
+    facts["cacheAddRefusesWhenShutdown"] = g is not None and store is not None and g < store
+    # the periodic runner itself
+    runner = None
+    for _, (mod, path, node, _) in scan.items():
+        if mod == "ipv8.taskmanager":
+            tree = ast.parse(path.read_text())
+            runner = next((n for n in tree.body if isinstance(n, ast.AsyncFunctionDef) and n.name == "interval_runner"), None)
+            break
+    facts["periodicRunnerStopsAfterShutdown"] = runner is not None and any(
+        isinstance(n, ast.While) and any(isinstance(x, ast.If) and "stop" in _src(x.test)
+                                         and any(isinstance(y, (ast.Return, ast.Break)) for y in x.body) for x in n.body)
+        for n in ast.walk(runner))
+    return facts
+
+
 def translate():
     scan = _scan()
     names = shipped(scan)
@@ -457,6 +574,12 @@ def translate():
              f"def statisticsEndpointForwardsRemove : Bool := {'true' if fwd['statistics_remove'] else 'false'}",
              f"def defaultRemoveDelay : Nat := {delay}",
              ""]
+    facts = task_manager_facts(scan)
+    lines.append("/-- structure of taskmanager.py / requestcache.py that the scheduler model mirrors (see design.d/C11.md) -/")
+    lines.append("def schedulerFacts : List (String × Bool) := [")
+    lines.append(",\n".join(f'  ("{k}", {str(v).lower()})' for k, v in facts.items()))
+    lines.append("]")
+    lines.append("")
     for ctor in ("remCircuit", "remRelay", "remExit"):
         lines.append(f"def sleeps_{ctor} (removeNow : Bool) (delay : Nat) : Bool := {guards[ctor]}")
     lines += ["",
@@ -477,7 +600,7 @@ def translate():
         info.append({"name": n, "script": script, "proxy": proxy, "cache": cache, "db": db})
     lines.append(",\n".join(rows))
     lines += ["]", "", "end Ipv8.C11.Gen", ""]
-    return "\n".join(lines), {"classes": info, "forwards": fwd, "guards": guards, "delay": delay}
+    return "\n".join(lines), {"classes": info, "forwards": fwd, "guards": guards, "delay": delay, "scheduler_facts": facts}
 
 
 if __name__ == "__main__":
